@@ -53,6 +53,11 @@ for pid, tx in EXTRA4.items():
     if pid in CLAIMS:
         CLAIMS[pid]['text'] += tx
 
+EXTRA5 = {'C15': ' R15.9: reflect.makeInt reduces a converted integer to the width and signedness of the destination kind before storing it inline.', 'C19': ' R19.9: a Go string reaches a NUL-terminated CPython constructor (PyUnicode_FromString) only on paths whose conditions exclude a NUL byte; the other path uses a constructor that receives the length.'}
+for pid, tx in EXTRA5.items():
+    if pid in CLAIMS:
+        CLAIMS[pid]['text'] += tx
+
 props = [json.loads(l)['id'] for l in open(os.path.join(VERIF, 'properties.jsonl'))]
 registered = subprocess.run([os.path.join(VERIF, 'bin', 'llgoverif'), 'list'], capture_output=True, text=True).stdout.split()
 
